@@ -276,6 +276,7 @@ LEVEL_TEXT = ('Generated-input search over ordered pairs of different wavelets, 
               'counts and non-square/odd sizes: the analysis and synthesis operators of DWTForward/DWTInverse '
               'built from separate column/row filters are compared with PyWavelets called with one wavelet per '
               'axis, with the functional afb2d/sfb2d, and with the transposition relation.')
+LEVEL_TEXT += (' Also generated: same-length pairs whose filters arrive through load_state_dict in a module born from one name, (wavelet, time-reversed wavelet) pairs, a None level, transposed views, overwritten caller arrays.')
 LEVEL_NOTE = ('Pairs are sampled (filter length <= 40), sizes <= 20x20 (larger only to leave the known '
               'short-periodization finding); KF-D1 applies per axis with that axis filter length.')
 TECHNIQUE = 'property-based testing (Hypothesis), differential oracle PyWavelets per-axis wavelets + metamorphic transposition'
